@@ -747,3 +747,26 @@ PROP = with_src(C16(), share=12, functions=["_mac_arch", "_mac_binary_formats", 
                           "Src._mac_binary_formats_translated", "Src._mac_binary_formats_eq_model",
                           "Src._parse_glibc_version_translated", "Src._parse_glibc_version_eq_model",
                           "Src._glibc_version_string_translated", "Src._glibc_version_string_eq_model"])
+
+# x6: the platform remainder — `_parse_musl_version`, both `platform_tags` of `_manylinux` / `_musllinux` (with `_is_compatible`,
+# `_have_compatible_abi`, `_is_linux_armhf/_i686`, `_get_glibc_version`), `_linux_platforms`, `mac_platforms`, `ios_platforms`,
+# `tags.platform_tags`, and `ELFFile.__init__` / `.interpreter`; the probes enter through the environment table, the
+# theorems are stated for every table that answers as the model's probe record says (Src/PlatEnv.lean, Src/ElfEnv.lean)
+X6_FUNCTIONS = ["_parse_musl_version", "_musllinux.platform_tags", "_is_compatible", "_manylinux.platform_tags",
+                "_have_compatible_abi", "_get_glibc_version", "_linux_platforms", "mac_platforms", "ios_platforms",
+                "tags.platform_tags", "ELFFile.__init__", "ELFFile.interpreter"]
+X6_MODULES = ["PkgProofs.Props.Src.PlatAll", "PkgProofs.Props.Src.Elf"]
+X6_THEOREMS = ["Src." + t for t in [
+    "_parse_musl_version_translated", "_parse_musl_version_eq_model",
+    "_musllinux.platform_tags_translated", "_musllinux.platform_tags_eq_model", "linuxEnv_of",
+    "_get_glibc_version_translated", "_get_glibc_version_eq_model", "_is_compatible_translated", "_is_compatible_eq_model",
+    "_is_linux_armhf_translated", "_is_linux_armhf_eq_model", "_is_linux_i686_translated", "_is_linux_i686_eq_model",
+    "_have_compatible_abi_translated", "_have_compatible_abi_eq_model",
+    "_manylinux.platform_tags_translated", "_manylinux.platform_tags_eq_model",
+    "mac_platforms_translated", "mac_platforms_eq_model", "ios_platforms_translated", "ios_platforms_eq_model",
+    "_generic_platforms_translated", "_generic_platforms_eq_model",
+    "_linux_platforms_translated", "_linux_platforms_eq_model",
+    "tags.platform_tags_translated", "tags.platform_tags_eq_model",
+    "ELFFile.__init___translated", "ELFFile.__init___eq_model", "ELFFile.interpreter_translated", "ELFFile.interpreter_eq_model",
+    "parse_idx", "ELFFile.init_interpreter_eq_model"]]
+PROP = with_src(PROP, share=12, functions=X6_FUNCTIONS, module=X6_MODULES, theorems=X6_THEOREMS)
